@@ -1,4 +1,6 @@
 import SnowModel.Drv.Util
+import SnowModel.Drv.C18
+import SnowModel.Drv.C10
 import SnowModel.Drv.C08
 import SnowModel.Drv.C17
 import SnowModel.Drv.C11
@@ -25,6 +27,8 @@ def dispatch (j : Json) : Except String Json := do
   else if m.startsWith "c11." then SnowModel.Drv.C11.handle m j
   else if m.startsWith "c17." then SnowModel.Drv.C17.handle m j
   else if m.startsWith "c08." then SnowModel.Drv.C08.handle m j
+  else if m.startsWith "c10." then SnowModel.Drv.C10.handle m j
+  else if m.startsWith "c18." then SnowModel.Drv.C18.handle m j
   else throw s!"unknown method {m}"
 
 partial def loop (hin hout : IO.FS.Stream) : IO Unit := do
